@@ -10,11 +10,11 @@ namespace sim {
 enum QueOp
 {
     Q_PUSH_FORE, Q_PUSH_BACK, Q_INSERT, Q_PULL_FORE, Q_PULL_BACK, Q_REMOVE, Q_AT, Q_FOREBACK, Q_PUSH_SORT, Q_PUSH_FORE_SORT,
-    Q_PUSH_BACK_SORT, Q_SWAP_ELEMS, Q_SWAP, Q_DROP, Q_SETZ, Q_FOREACH, Q_RECREATE, Q__COUNT
+    Q_PUSH_BACK_SORT, Q_SWAP_ELEMS, Q_SWAP, Q_DROP, Q_SETZ, Q_FOREACH, Q_RECREATE, Q_BURST, Q__COUNT
 };
 static char const *const QUE_OP_NAMES[] = {"q_push_fore", "q_push_back", "q_insert", "q_pull_fore", "q_pull_back", "q_remove", "q_at", "q_foreback",
                                            "q_push_sort", "q_push_fore_sort", "q_push_back_sort", "q_swap_elems", "q_swap", "q_drop", "q_setz",
-                                           "q_foreach", "q_recreate"};
+                                           "q_foreach", "q_recreate", "q_burst"};
 
 struct QElem { void *addr; std::string bytes; };
 struct QueBox
@@ -34,6 +34,7 @@ struct QueTarget
     uint32_t keyspace = 16;
     size_t maxlen = 40;
     int64_t bern_permille = 0; uint64_t bern_seed = 0;
+    bool mac = false; // this op goes through the typed upper-case macro forms
     explicit QueTarget(Ctx &c_) : c(c_), run(c_) {}
 
     std::string fresh(QueBox &x, int64_t key) { return make_elem(x.z, (uint32_t)((uint64_t)(key < 0 ? -key : key) % keyspace), ++stamp); }
@@ -239,23 +240,47 @@ struct QueTarget
         size_t const len = x.M.size();
         bool const roomy = len < maxlen;
         g_cb_z = x.z;
+        typedef unsigned char UC;
+        mac = (((uint64_t)o.a[0] * 3 + (uint64_t)o.a[1] * 5 + (uint64_t)o.a[2] * 7 + (uint64_t)o.a[3]) >> 3 & 3) == 0;
+        if (mac) c.st.add("probe.typed_macro_form");
         switch (o.kind - 200)
         {
-        case Q_PUSH_FORE: if (roomy) do_push(x, "a_que_push_fore", [&] { return a_que_push_fore(q); }, 0, o.a[0]); break;
-        case Q_PUSH_BACK: if (roomy) do_push(x, "a_que_push_back", [&] { return a_que_push_back(q); }, (long)len, o.a[0]); break;
+        case Q_PUSH_FORE: if (roomy) do_push(x, "a_que_push_fore", [&] { return mac ? (void *)A_QUE_PUSH_FORE(UC, q) : a_que_push_fore(q); }, 0, o.a[0]); break;
+        case Q_PUSH_BACK: if (roomy) do_push(x, "a_que_push_back", [&] { return mac ? (void *)A_QUE_PUSH_BACK(UC, q) : a_que_push_back(q); }, (long)len, o.a[0]); break;
         case Q_INSERT:
         {
             if (!roomy) break;
             size_t const idx = pick_index(o.a[0], o.a[1], len);
-            do_push(x, "a_que_insert", [&] { return a_que_insert(q, idx); }, (long)std::min(idx, len), o.a[2]);
+            do_push(x, "a_que_insert", [&] { return mac ? (void *)A_QUE_INSERT(UC, q, idx) : a_que_insert(q, idx); }, (long)std::min(idx, len), o.a[2]);
             break;
         }
-        case Q_PULL_FORE: do_pull(x, "a_que_pull_fore", [&] { return a_que_pull_fore(q); }, 0); break;
-        case Q_PULL_BACK: do_pull(x, "a_que_pull_back", [&] { return a_que_pull_back(q); }, len ? len - 1 : 0); break;
+        case Q_PULL_FORE: do_pull(x, "a_que_pull_fore", [&] { return mac ? (void *)A_QUE_PULL_FORE(UC, q) : a_que_pull_fore(q); }, 0); break;
+        case Q_PULL_BACK: do_pull(x, "a_que_pull_back", [&] { return mac ? (void *)A_QUE_PULL_BACK(UC, q) : a_que_pull_back(q); }, len ? len - 1 : 0); break;
         case Q_REMOVE:
         {
             size_t const idx = pick_index(o.a[0], o.a[1], len);
-            do_pull(x, "a_que_remove", [&] { return a_que_remove(q, idx); }, idx);
+            do_pull(x, "a_que_remove", [&] { return mac ? (void *)A_QUE_REMOVE(UC, q, idx) : a_que_remove(q, idx); }, idx);
+            break;
+        }
+        case Q_BURST:
+        { // fill / drain bursts: the node pool only grows beyond a few entries when many elements are pulled in a row
+            size_t const n = 9 + (size_t)((uint64_t)(o.a[1] < 0 ? -o.a[1] : o.a[1]) % (run.faults_enabled || bern_permille ? 12 : 64));
+            int const kind = (int)((uint64_t)(o.a[0] < 0 ? -o.a[0] : o.a[0]) % 4);
+            c.st.add("probe.que_burst");
+            auto fill = [&](size_t k) { for (size_t i = 0; i < k && c.ok(); ++i) { size_t before = x.M.size(); do_push(x, "a_que_push_back", [&] { return a_que_push_back(q); }, (long)x.M.size(), o.a[2] + (int64_t)i); if (x.M.size() == before) break; } };
+            auto drain = [&](bool fore) { size_t guard = 0; while (c.ok() && !x.M.empty() && guard++ < 400) { size_t before = x.M.size(); if (fore) do_pull(x, "a_que_pull_fore", [&] { return a_que_pull_fore(q); }, 0); else do_pull(x, "a_que_pull_back", [&] { return a_que_pull_back(q); }, x.M.size() - 1); if (x.M.size() == before) break; } };
+            if (kind == 0) { fill(n); drain(true); }
+            else if (kind == 1) { fill(n); drain(false); fill(n / 2); }
+            else if (kind == 2)
+            { // drop n, then enqueue more than that and remove them all: the pool array must grow from an odd capacity
+                fill(n);
+                int ret = 0;
+                int rc = run.api("a_que_drop", [&] { ret = a_que_drop(q, nullptr); return ret == 0; }, [&] { return check(x, "a_que_drop"); });
+                if (rc == SeqRun::API_OK) { x.M.clear(); if (!check(x, "a_que_drop")) break; }
+                else if (rc == SeqRun::API_VIOLATION) break;
+                fill(n + 1 + (size_t)((uint64_t)(o.a[3] < 0 ? -o.a[3] : o.a[3]) % 8)); drain((o.a[3] & 1) != 0);
+            }
+            else { fill(n); drain(true); fill(n + 3); drain(false); }
             break;
         }
         case Q_AT:
@@ -263,7 +288,7 @@ struct QueTarget
             // every index in [-len-1, len] when a[2] is odd, one index otherwise
             auto one = [&](int64_t i) {
                 c.site("a_que_at");
-                void *p = a_que_at(q, (a_diff)i);
+                void *p = mac ? (void *)A_QUE_AT(unsigned char, q, (a_diff)i) : a_que_at(q, (a_diff)i);
                 void *want = nullptr;
                 if (i >= 0 && (uint64_t)i < len) want = x.M[(size_t)i].addr;
                 else if (i < 0 && (uint64_t)(-i) <= len) want = x.M[len - (size_t)(-i)].addr;
@@ -286,6 +311,7 @@ struct QueTarget
             if (len == 0) { if (f || b) c.fail("access-wrong-element", "a_que_fore", "fore/back of an empty queue is not NULL"); }
             else if (f != x.M.front().addr || b != x.M.back().addr) c.fail("access-wrong-element", "a_que_fore", "fore/back do not designate the first/last element");
             else if (a_que_fore_(q) != f || a_que_back_(q) != b) c.fail("access-wrong-element", "a_que_fore_", "unchecked and checked fore/back disagree");
+            else if ((void *)A_QUE_FORE(unsigned char, q) != f || (void *)A_QUE_BACK(unsigned char, q) != b || (void *)A_QUE_FORE_(unsigned char, q) != f || (void *)A_QUE_BACK_(unsigned char, q) != b) c.fail("access-wrong-element", "A_QUE_FORE", "typed macro fore/back disagree with the functions");
             break;
         }
         case Q_PUSH_SORT:
@@ -294,7 +320,7 @@ struct QueTarget
             if (!sorted(x.M, x.z)) { do_push(x, "a_que_push_back", [&] { return a_que_push_back(q); }, (long)len, o.a[0]); break; }
             std::string e = fresh(x, o.a[0]);
             c.st.add("probe.que_sorted_insert");
-            do_push(x, "a_que_push_sort", [&] { return a_que_push_sort(q, e.data(), elem_cmp); }, -1, 0, &e);
+            do_push(x, "a_que_push_sort", [&] { return mac ? (void *)A_QUE_PUSH_SORT(unsigned char, q, e.data(), elem_cmp) : a_que_push_sort(q, e.data(), elem_cmp); }, -1, 0, &e);
             break;
         }
         case Q_PUSH_FORE_SORT:
@@ -429,6 +455,7 @@ static inline void gen_que_plan(Rng &r, Plan &p, bool for_faults, int tier)
     if (sorted_mode) { en[Q_PUSH_FORE] = en[Q_PUSH_BACK] = en[Q_INSERT] = en[Q_SWAP_ELEMS] = false; if (!(en[Q_PUSH_SORT] || en[Q_PUSH_FORE_SORT] || en[Q_PUSH_BACK_SORT])) en[Q_PUSH_SORT + (int)r.below(3)] = true; }
     else if (!(en[Q_PUSH_FORE] || en[Q_PUSH_BACK] || en[Q_INSERT])) en[r.chance(1, 2) ? Q_PUSH_BACK : Q_INSERT] = true;
     if (!(en[Q_PULL_FORE] || en[Q_PULL_BACK] || en[Q_REMOVE])) en[Q_PULL_FORE + (int)r.below(3)] = true;
+    if (for_faults) en[Q_BURST] = r.chance(1, 6);
     std::vector<int> kinds;
     for (int k = 0; k < Q__COUNT; ++k) if (en[k]) { kinds.push_back(k); if (k <= Q_REMOVE || (k >= Q_PUSH_SORT && k <= Q_PUSH_BACK_SORT)) { kinds.push_back(k); kinds.push_back(k); } }
     int64_t const nops = for_faults ? r.range(3, 40) : r.geolen(6, 300);
